@@ -818,8 +818,14 @@ func (s *state) Write(b []byte) (n int, err error) {
 		} else {
 			if s.needNewline > 0 && s.notEmpty {
 				// If newline chars were pending, display them now.
+				// In detail mode an empty line gets the separator without
+				// its trailing space; otherwise it is a plain newline.
+				emptyLine := sep
+				if s.wantDetail {
+					emptyLine = detailSep[:len(detailSep)-1]
+				}
 				for i := 0; i < s.needNewline-1; i++ {
-					s.buf.Write(detailSep[:len(sep)-1])
+					s.buf.Write(emptyLine)
 				}
 				s.buf.Write(sep)
 				s.needNewline = 0
